@@ -49,8 +49,9 @@ META = {
                  "over the handler language + differential correspondence of the extracted model against a real Connection under a raw-protocol fuzzer "
                  "with canary objects and audit hooks",
     "gen": ["handlers", "protocol", "consts", "attrpolicy", "vinegar", "colls", "netref"],
-    "shapes": ["handlers.*", "protocol.Connection._dispatch", "protocol.Connection._dispatch_request", "protocol.Connection._unbox",
-               "protocol.Connection._box", "protocol.Connection._request_handlers", "protocol.Connection._handle_*",
+    # _dispatch, _dispatch_request, _unbox, _box, _request_handlers and every _handle_* are read by tools/pygen/handlers.py into typed
+    # items that match their text exactly (tie lemmas), so their plain shape snapshots (owned by other checks) are not repeated here
+    "shapes": ["handlers.*",
                "protocol.Connection._access_attr", "protocol.Connection._check_attr", "protocol.Connection._unbox_exc",
                "protocol.Connection._netref_factory", "protocol.Connection.serve_all", "protocol.Connection.serve", "protocol.Connection._cleanup",
                "protocol.Connection.__init__", "protocol.Connection._send_exc", "protocol.Connection._box_exc", "protocol.Connection._dispatch_response",
@@ -380,11 +381,16 @@ class CanaryMeta(type, metaclass=MetaMeta):
 
 
 class CanaryBase(object, metaclass=CanaryMeta):
-    locals().update(_mk_ops(lambda self, name: _lookup(self, name, object.__getattribute__)))
+    """instances of these are NOT callable (no __call__ on the class): callable(obj) is False, obj() is Python's own TypeError"""
+    locals().update({k: v for k, v in _mk_ops(lambda self, name: _lookup(self, name, object.__getattribute__)).items() if k != "__call__"})
 
     def __hash__(self):
         d = _op(self, "hash")
         return _value(d, d["hash"], TypeError("unhashable"))
+
+
+class CanaryCallable(CanaryBase):
+    __call__ = _mk_ops(None)["__call__"]
 
 
 class World(object):
@@ -399,7 +405,7 @@ class World(object):
         self.objs[self.meta] = CanaryMeta
         for i, d in enumerate(descs[:-1]):
             if d["cls"]:
-                self.objs[i] = CanaryMeta("K%d" % i, (CanaryBase,), {"__module__": "harness.C07"})
+                self.objs[i] = CanaryMeta("K%d" % i, (CanaryCallable if d.get("icall", True) else CanaryBase,), {"__module__": "harness.C07"})
         for i, d in enumerate(descs[:-1]):
             if not d["cls"]:
                 self.objs[i] = object.__new__(self.objs[d["type"]])
@@ -695,8 +701,13 @@ def gen_world(r):
             d["ihooks"] = [int(r.random() < 0.7), int(r.random() < 0.5), int(r.random() < 0.5)]
         descs.append(d)
     for d in descs:
+        if d["cls"]:
+            d["icall"] = r.random() < 0.6            # are this class's instances callable?
+    for d in descs:
         if not d["cls"]:
             d["hooks"] = list(descs[d["type"]]["ihooks"])
+            if not descs[d["type"]]["icall"]:
+                d["call"] = ["none"]
     descs.append({"cls": True, "type": n, "attrs": [], "hooks": [0, 0, 0], "ihooks": [0, 0, 0], "hookres": ["none"], "call": ["none"], "iter": None,
                   "repr": "<meta>", "str": "<meta>", "hash": ["none"], "dir": [], "bool": True})
     return descs
@@ -729,7 +740,8 @@ def world_sx(world):
                     [int(x) for x in d["hooks"]], aval_sx(d["hookres"], world), aval_sx(d["call"], world),
                     [1, [aval_sx(a, world) for a in d["iter"]]] if d["iter"] is not None else [0],
                     cps(d["repr"]), cps(d["str"]), [3] if hv[0] == "any" else aval_sx(hv, world),
-                    [cps(x) for x in sorted(set(d["dir"]))], int(d["bool"]), to_sx(world.methods[i])])
+                    [cps(x) for x in sorted(set(d["dir"]))], int(d["bool"]), to_sx(world.methods[i]),
+                    int(d["cls"] or bool(world.descs[d["type"]].get("icall", True)))])
     return out
 
 
@@ -1112,6 +1124,22 @@ def exc_class_of(e):
 CLS_MODE = [2]        # how netref.class_factory looks the class up (0: getattr, runs module hooks; 2: the module's __dict__), regenerated in run()
 
 
+VARIANT = [[0], 0]     # (_handle_cmp's name guard: [0] none / [1, [names]]; _handle_ctxexit catches BaseException), regenerated in run()
+
+
+def variant_facts():
+    try:
+        from tools.pygen import handlers as TH
+        import ast as _ast
+        g, ctxall = TH.facts(C.REPO)["variants"]
+        names = None
+        if g is not None:
+            names = [x.value for x in _ast.walk(_ast.parse(g.replace("%string", "").replace(";", ",").replace("(Some ", "(").strip(), mode="eval")) if isinstance(x, _ast.Constant)]
+        return ([1, names] if names is not None else [0]), int(ctxall)
+    except Exception:
+        return None
+
+
 def class_mode():
     try:
         from tools.pygen import handlers as TH
@@ -1413,6 +1441,8 @@ def model_log(events, world):
                 continue
             if op == "isinstance" and not cls:
                 continue
+            if op == "call" and not cls and not world.descs[world.descs[e[1]]["type"]].get("icall", True):
+                continue                                    # not callable: Python's own TypeError, nothing of the object runs
             if op == "funcstr" and not cls:
                 out.append((e[1], "op:str"))        # no __qualname__ on an instance: CPython falls back to str(callee)
             if op in LOGMAP:
@@ -1550,7 +1580,7 @@ def run_case(ctx, case, noise, model_jobs=None):
                 ctx.count("ended:" + type(obs["ended"]).__name__)
         modelable = all("m" in m and not m.get("interleave") for m in case["msgs"])
         if model_jobs is not None and modelable:
-            sx = ["session", CLS_MODE[0], world_sx(sess.world), [cps(n) for n in BUILTIN_NAMES], [cps(n) for n in EXC_NAMES], mods_sx(),
+            sx = ["session", [CLS_MODE[0], VARIANT[0], VARIANT[1]], world_sx(sess.world), [cps(n) for n in BUILTIN_NAMES], [cps(n) for n in EXC_NAMES], mods_sx(),
                   [msg_sx(sess, m) for m in case["msgs"]]]
             # what the comparison needs after the python objects are gone
             snap = {"descs": case["world"], "rev": dict(sess.rev)}
@@ -1717,6 +1747,12 @@ def run(ctx):
     if mode is None:
         ctx.tie_broken("translator:handlers.class_lookup_mode", "tools/pygen/handlers.py does not recognise how netref.class_factory looks a class up")
     CLS_MODE[0] = 2 if mode is None else mode
+    v = variant_facts()
+    if v is None:
+        ctx.tie_broken("translator:handlers.variants", "tools/pygen/handlers.py does not recognise the form of _handle_cmp / _handle_ctxexit")
+    else:
+        VARIANT[0], VARIANT[1] = v
+    ctx.coverage_extra["handler_variants"] = {"cmp_guard": VARIANT[0], "ctx_catches_all": VARIANT[1]}
     ctx.coverage_extra["rule"] = ("sessions of 4..30 messages over a generated world of 3..9 canary objects (instances, classes, metaclass) behind a real Connection; "
                                   "every session starts with GETROOT; 90% requests (handler drawn uniformly from the 20 published numbers; targets: 80% references "
                                   "the peer probably holds, the rest never-lent/stale/other-connection/forged variants of real id packs (float, complex, shifted, "
@@ -1752,6 +1788,9 @@ def replay(ctx, rep):
     noise = noise_names() or FALLBACK_NOISE
     mode = class_mode()
     CLS_MODE[0] = 2 if mode is None else mode
+    v = variant_facts()
+    if v is not None:
+        VARIANT[0], VARIANT[1] = v
     jobs = [] if model is not None else None
     run_case(ctx, {"id": "replay", "world": case["world"], "msgs": case["msgs"]}, noise, jobs)
     if jobs:
